@@ -42,6 +42,9 @@ deriving DecidableEq, Repr, Inhabited
 inductive Prog
   | views2 (k1 k2 : VK) (same : Bool)          -- two views in one query
   | entryViews (k1 k2 : VK) (same : Bool)      -- a view and an entry view
+  | views2Id (k1 k2 : VK) (same : Bool)        -- the same behind an `entity::Identifier` view
+  | entryViewsId (inEntry : Bool) (k1 k2 : VK) (same : Bool)
+      -- a view and an entry view, an `entity::Identifier` first in the views / in the entry views
   | subView (sub sup : VK)                     -- Entries: sub-view of a declared entry view
   | worldEntry2 (k1 k2 : VK)                   -- World::entry(..).query twice, both results held
   | entriesEntry2 (k1 k2 : VK)                 -- Entries::entry(..).query twice, both results held
@@ -62,6 +65,8 @@ def sigTied (file : String) : Bool := (entryQuerySigs.lookup file).getD false
 def accepts : Prog → Bool
   | .views2 _ _ same => !same                     -- a registry component is consumed by one view
   | .entryViews k1 k2 same => !same || (!k1.isMut && !k2.isMut)   -- `view::Disjoint`
+  | .views2Id _ _ same => !same
+  | .entryViewsId _ k1 k2 same => !same || (!k1.isMut && !k2.isMut)
   | .subView sub sup => subViewableTable.contains (sub, sup)
   | .worldEntry2 _ _ => !sigTied "world/entry.rs"   -- tied to the `&mut self` borrow ⇒ second call rejected
   | .entriesEntry2 _ _ => !sigTied "query/entries.rs"
@@ -86,6 +91,8 @@ def accepts : Prog → Bool
 def Sound : Prog → Bool
   | .views2 k1 k2 same => !(same && (k1.isMut || k2.isMut))
   | .entryViews k1 k2 same => !(same && (k1.isMut || k2.isMut))
+  | .views2Id k1 k2 same => !(same && (k1.isMut || k2.isMut))
+  | .entryViewsId _ k1 k2 same => !(same && (k1.isMut || k2.isMut))
   | .subView sub sup => !sub.isMut || sup.isMut        -- no `&mut` out of a shared view
   | .worldEntry2 k1 k2 => !(k1.isMut || k2.isMut)
   | .entriesEntry2 k1 k2 => !(k1.isMut || k2.isMut)
@@ -109,6 +116,9 @@ API with every payload), each conflicting program next to its conflict-free twin
 def family : List Prog :=
   (allVK.flatMap fun a => allVK.flatMap fun b => [Prog.views2 a b true, .views2 a b false]) ++
   (allVK.flatMap fun a => allVK.flatMap fun b => [Prog.entryViews a b true, .entryViews a b false]) ++
+  (allVK.flatMap fun a => allVK.flatMap fun b => [Prog.views2Id a b true, .views2Id a b false]) ++
+  ([false, true].flatMap fun e => allVK.flatMap fun a => allVK.flatMap fun b =>
+    [Prog.entryViewsId e a b true, .entryViewsId e a b false]) ++
   (allVK.flatMap fun a => allVK.map fun b => Prog.subView a b) ++
   (allVK.flatMap fun a => allVK.map fun b => Prog.worldEntry2 a b) ++
   (allVK.flatMap fun a => allVK.map fun b => Prog.entriesEntry2 a b) ++
@@ -131,6 +141,8 @@ def Cross.tok : Cross → String
 def Prog.tok : Prog → String
   | .views2 a b s => s!"views2 {a.tok} {b.tok} {if s then "same" else "diff"}"
   | .entryViews a b s => s!"entryviews {a.tok} {b.tok} {if s then "same" else "diff"}"
+  | .views2Id a b s => s!"views2id {a.tok} {b.tok} {if s then "same" else "diff"}"
+  | .entryViewsId e a b s => s!"entryviewsid {if e then "e" else "v"} {a.tok} {b.tok} {if s then "same" else "diff"}"
   | .subView a b => s!"subview {a.tok} {b.tok}"
   | .worldEntry2 a b => s!"worldentry2 {a.tok} {b.tok}"
   | .entriesEntry2 a b => s!"entriesentry2 {a.tok} {b.tok}"
